@@ -28,6 +28,9 @@ func symbolNeedsQuoting(sym string) bool {
 	switch sym {
 	case "", "null", "true", "false", "nan":
 		return true
+	case "$ion_1_0":
+		// Unquoted, this text is an Ion version marker rather than a symbol.
+		return true
 	}
 
 	if !isIdentifierStart(int(sym[0])) {
